@@ -679,7 +679,17 @@ def check_density_count(case, pts, out, stats):
             base_k = base_k["d"]
         if base_k["k"] in ("union", "cut", "inter"):
             return
-        if not ((1 if want_hi >= 16 else 0) <= rows <= want_hi):
+        # at least one point is demanded only where a regular lattice of <= want points exists at all: the
+        # lattice of a parallelogram follows its side ratio rho (n_short = floor(sqrt(n/rho))), so a strip with
+        # rho > n legitimately gets an empty grid (the property only bounds the count from above)
+        rho = 1.0
+        if base_k["k"] in ("par", "tri"):
+            one = dict(P) if P else {"_": np.zeros((1, 1))}
+            cs_ = G.corners(base_k, one, 1)[0]
+            l1, l2 = float(np.linalg.norm(cs_[1] - cs_[0])), float(np.linalg.norm(cs_[-1] - cs_[0]))
+            rho = max(l1, l2) / max(min(l1, l2), 1e-12)
+        need_one = want_hi >= 16 * max(1.0, rho)
+        if not ((1 if need_one else 0) <= rows <= want_hi):
             out.append(viol("C10", "density-grid-count", "grid-count-out-of-range", "", rows=rows, want=want_hi))
     elif cls == "exact":
         if not (want_lo <= rows <= want_hi):
